@@ -330,6 +330,47 @@ def decode_both(chk, inp, what, data, bp_cls, ref_cls, schema, ci, notes):
     return cr, m
 
 
+def rezone(x, rng):
+    """the same message with every datetime moved to another UTC offset (the same instant); returns how many were moved"""
+    import dataclasses
+    from datetime import datetime, timedelta, timezone
+    n = 0
+
+    def move(d):
+        nonlocal n
+        tz = timezone(timedelta(minutes=rng.choice([-720, -300, -1, 1, 60, 120, 330, 345, 840])))
+        try:
+            r = d.astimezone(tz)
+        except (OverflowError, ValueError):
+            return d
+        n += 1
+        return r
+    for f in dataclasses.fields(x):
+        if f.name.startswith("_"):
+            continue
+        try:
+            val = object.__getattribute__(x, f.name)
+        except AttributeError:
+            continue
+        if isinstance(val, datetime):
+            setattr(x, f.name, move(val))
+        elif isinstance(val, list):
+            for i, e in enumerate(val):
+                if isinstance(e, datetime):
+                    val[i] = move(e)
+                elif dataclasses.is_dataclass(e):
+                    n += rezone(e, rng)
+        elif isinstance(val, dict):
+            for k, e in list(val.items()):
+                if isinstance(e, datetime):
+                    val[k] = move(e)
+                elif dataclasses.is_dataclass(e):
+                    n += rezone(e, rng)
+        elif dataclasses.is_dataclass(val):
+            n += rezone(val, rng)
+    return n
+
+
 def oracle(chk, inp, v, b_classes, refs, schema, rng, kinds=RE.KINDS, collect=None):
     """all four directions for one abstract value; `collect` receives (what, bytes, ci) of
     every byte string decoded, for the model / spec correspondence"""
@@ -361,6 +402,18 @@ def oracle(chk, inp, v, b_classes, refs, schema, rng, kinds=RE.KINDS, collect=No
         chk.count("dir_a_bp_to_ref")
         if collect is not None:
             collect.append(("bp_bytes", bp_bytes, ci, want))
+        # the same instants written in other time zones are the same Timestamps
+        try:
+            m2 = bpgen.to_py(v, b_classes)
+            if rezone(m2, rng):
+                chk.count("dir_a_rezoned_datetimes")
+                z = bytes(m2)
+                got = canon_ref(ref_cls.FromString(z), schema, ci, notes)
+                if got != want:
+                    chk.fail("reference-reads-betterproto-bytes-differently", dict(inp, data=z.hex(), rezoned=True),
+                             "datetimes given with a non-zero UTC offset: meant=%r reference_decoded=%r" % (want, got))
+        except Exception as e:
+            chk.fail("betterproto-encode-raises", dict(inp, rezoned=True), repr(e))
     # (b) reference bytes -> betterproto
     cr, _ = decode_both(chk, inp, "reference-bytes", ref_bytes, bp_cls, ref_cls, schema, ci, notes)
     if cr is not None and cr != want:
